@@ -38,6 +38,34 @@ def Prompt (T : Nat → Nat) (s : Node) : Ev → Prop
   | .newView e _ => s.persistedNext < T (e + 1)
   | _ => True
 
+/-- executable versions of `EvOk` / `Prompt` (for the checked example runs) -/
+def evOkB (T : Nat → Nat) (s : Node) : Ev → Bool
+  | .runnerInit last act _ => decide (act = T (curOf last))
+  | .poll (some (pact, _)) => decide (pact = T (s.cur + 1))
+  | _ => true
+
+def promptB (T : Nat → Nat) (s : Node) : Ev → Bool
+  | .timeout e => decide (s.persistedNext < T (e + 1))
+  | .vote e _ _ _ => decide (s.persistedNext < T (e + 1))
+  | .newView e _ => decide (s.persistedNext < T (e + 1))
+  | _ => true
+
+theorem evOkB_sound {T : Nat → Nat} {s : Node} {ev : Ev} (h : evOkB T s ev = true) : EvOk T s ev := by
+  cases ev with
+  | runnerInit last act com => simpa [evOkB, EvOk] using h
+  | poll pending =>
+    cases pending with
+    | none => trivial
+    | some pc => obtain ⟨a, b⟩ := pc; simpa [evOkB, EvOk] using h
+  | _ => trivial
+
+theorem promptB_sound {T : Nat → Nat} {s : Node} {ev : Ev} (h : promptB T s ev = true) : Prompt T s ev := by
+  cases ev with
+  | timeout e => simpa [promptB, Prompt] using h
+  | vote e v n t => simpa [promptB, Prompt] using h
+  | newView e v => simpa [promptB, Prompt] using h
+  | _ => trivial
+
 /-- States reachable from a fresh node by any event list whose answers agree with `T` and whose events
 satisfy `P` (`fun _ _ => True` for the code as it is, `Prompt T` for the `_partial` theorems). -/
 inductive Reach (T : Nat → Nat) (P : Node → Ev → Prop) : Node → Prop
@@ -206,14 +234,6 @@ theorem InvA.write {T : Nat → Nat} {s : Node} (hI : InvA T s) {e cv : Nat} {pp
     · subst hxe; simp at hs; subst hs; exact ⟨rfl, hT⟩
     · simp [hxe] at hs; exact hI.bkT x st hs
 
-/-- facts about a step that is not a durable write: the durable part only grows in `persistedNext` -/
-structure Quiet (s s' : Node) : Prop where
-  static : s'.static = s.static
-  slot : s'.slot = s.slot
-  bk : s'.lastBackup = s.lastBackup
-  signed : s'.signed = s.signed
-  pers : s.persistedNext ≤ s'.persistedNext
-
 theorem InvA.step {T : Nat → Nat} {s s' : Node} {ev : Ev} (hI : InvA T s) (hok : EvOk T s ev)
     (hs : step s ev = some s') : InvA T s' := by
   cases ev with
@@ -315,25 +335,25 @@ theorem InvA.step {T : Nat → Nat} {s s' : Node} {ev : Ev} (hI : InvA T s) (hok
     simp only [Model.Epoch.step] at hs
     split at hs
     · cases hs
-    · cases hs
-    · split at hs
+    · rename_i hne
+      split at hs
       · split at hs
-        · cases hs
-          refine { hI with firstT := ?_, runningT := ?_ }
-          · intro x hx
-            simp only [setInst] at hx ⊢
-            by_cases hxe : x = e
-            · subst hxe; rename_i hne1 hne2 _ _ _ _
-              exact hI.firstT x (by intro h; exact hne1 h)
-            · simp [hxe] at hx; exact hI.firstT x hx
-          · intro x v p hx
-            simp only [setInst] at hx
-            by_cases hxe : x = e
-            · simp [hxe] at hx
-            · simp [hxe] at hx; exact hI.runningT x v p hx
+        · split at hs
+          · cases hs
+            refine { hI with firstT := ?_, runningT := ?_ }
+            · intro x hx
+              simp only [setInst] at hx ⊢
+              by_cases hxe : x = e
+              · subst hxe; exact hI.firstT x (by intro h; exact hne (Or.inl h))
+              · simp [hxe] at hx; exact hI.firstT x hx
+            · intro x v p hx
+              simp only [setInst] at hx
+              by_cases hxe : x = e
+              · simp [hxe] at hx
+              · simp [hxe] at hx; exact hI.runningT x v p hx
+          · cases hs
         · cases hs
       · cases hs
-    · cases hs
   | cancel e =>
     simp only [Model.Epoch.step] at hs
     split at hs
@@ -362,5 +382,328 @@ theorem InvA.reach {T : Nat → Nat} {P : Node → Ev → Prop} {s : Node} (h : 
   induction h with
   | init st n h => exact InvA.init st n h
   | step _ hok _ hs ih => exact ih.step hok hs
+
+/-! ### invariants that need prompt teardown -/
+
+/-- a vote signed at view `b` is recorded by a durable state `(v, p)`: the state is in a later view, or in the same
+view and no longer in `Prepare` -/
+def Covered (b v : Nat) (p : Phase) : Prop := b < v ∨ (b = v ∧ p ≠ .prepare)
+
+/-- `a` may be signed after `b`: epochs do not go back; within an epoch views do not go back, and a commit vote is
+for a view strictly above everything signed before -/
+def Later (a b : Signed) : Prop :=
+  b.epoch ≤ a.epoch ∧ (b.epoch = a.epoch → b.view ≤ a.view ∧ (a.kind = .commit → b.view < a.view))
+
+structure InvB (T : Nat → Nat) (s : Node) : Prop where
+  a : InvA T s
+  keep : ∀ e st, s.lastBackup e = some st → s.persistedNext < T (e + 1) → s.slot = some st
+  live : ∀ e v p, s.inst e = .running v p → s.persistedNext < T (e + 1) →
+    (∀ st, s.lastBackup e = some st → st.view = v ∧ st.phase = p) ∧ (s.lastBackup e = none → v = 0 ∧ p = .prepare)
+  cover : ∀ sg ∈ s.signed, ∃ st, s.lastBackup sg.epoch = some st ∧ Covered sg.view st.view st.phase
+  order : s.signed.Pairwise Later
+
+theorem InvB.init {T : Nat → Nat} (static : Option (Nat × Nat)) (next : Nat)
+    (h : ∀ fb c, static = some (fb, c) → fb = T 0) : InvB T (Node.init static next) where
+  a := InvA.init static next h
+  keep := by intro e st hs; simp [Node.init] at hs
+  live := by intro e v p he; simp [Node.init] at he
+  cover := by intro sg hs; simp [Node.init] at hs
+  order := by simp [Node.init]
+
+/-- a step that is not a durable write: the durable part only grows in `persistedNext`; an instance that is running
+afterwards was running before, or has just been started from the slot -/
+structure Quiet (s s' : Node) : Prop where
+  slot : s'.slot = s.slot
+  bk : s'.lastBackup = s.lastBackup
+  signed : s'.signed = s.signed
+  pers : s.persistedNext ≤ s'.persistedNext
+  inst : ∀ e v p, s'.inst e = .running v p →
+    s.inst e = .running v p ∨ restore s.slot e = .running v p
+
+theorem InvB.quiet {T : Nat → Nat} {s s' : Node} (hI : InvB T s) (ha : InvA T s') (hq : Quiet s s') : InvB T s' := by
+  refine ⟨ha, ?_, ?_, ?_, ?_⟩
+  · intro e st hb hp
+    rw [hq.bk] at hb; rw [hq.slot]
+    exact hI.keep e st hb (by have := hq.pers; omega)
+  · intro e v p hr hp
+    rw [hq.bk]
+    have hp' : s.persistedNext < T (e + 1) := by have := hq.pers; omega
+    rcases hq.inst e v p hr with h | h
+    · exact hI.live e v p h hp'
+    · unfold restore at h
+      constructor
+      · intro st hb
+        have hslot := hI.keep e st hb hp'
+        have hep := (hI.a.bkT e st hb).1
+        simp [stored, hslot, hep] at h
+        exact h
+      · intro hb
+        cases hsl : s.slot with
+        | none =>
+          simp [stored, hsl, RState.default] at h
+          exact ⟨h.1.symm, h.2.symm⟩
+        | some st' =>
+          have := hI.a.slotBk st' hsl
+          simp only [stored, hsl] at h
+          by_cases hep : st'.epoch = e
+          · rw [hep, hb] at this; cases this
+          · simp [hep, RState.default] at h
+            exact ⟨h.1.symm, h.2.symm⟩
+  · intro sg hs
+    rw [hq.signed] at hs; rw [hq.bk]
+    exact hI.cover sg hs
+  · rw [hq.signed]; exact hI.order
+
+/-- what the three writing handlers have in common -/
+structure WriteOk (e cv : Nat) (pp : Phase) (v : Nat) (p : Phase) (sg : Option Signed) : Prop where
+  adv : ∀ b, Covered b cv pp → Covered b v p
+  sig : ∀ x, sg = some x → x.epoch = e ∧ x.view = v ∧ p ≠ .prepare ∧
+    ∀ b, Covered b cv pp → b ≤ v ∧ (x.kind = .commit → b < v)
+
+theorem write_signed (s : Node) (e v : Nat) (p : Phase) (sg : Option Signed) :
+    (write s e v p sg).signed = (match sg with | some x => x :: s.signed | none => s.signed) := by
+  cases sg <;> rfl
+
+theorem InvB.write {T : Nat → Nat} (hm : Mono T) {s : Node} (hI : InvB T s) {e cv : Nat} {pp : Phase}
+    (hrun : s.inst e = .running cv pp) (hP : s.persistedNext < T (e + 1))
+    {v : Nat} {p : Phase} {sg : Option Signed} (hw : WriteOk e cv pp v p sg) :
+    InvB T (write s e v p sg) := by
+  obtain ⟨f1, f2, f3, f4, f5, f6, f7⟩ := write_fields s e v p sg
+  have hlive := hI.live e cv pp hrun hP
+  -- every earlier signature of epoch `e` is covered by the state the instance is in
+  have hold : ∀ b ∈ s.signed, b.epoch = e → Covered b.view cv pp := by
+    intro b hb hbe
+    obtain ⟨st, hst, hc⟩ := hI.cover b hb
+    rw [hbe] at hst
+    obtain ⟨h1, h2⟩ := hlive.1 st hst
+    rw [h1, h2] at hc; exact hc
+  refine ⟨hI.a.write hrun v p sg, ?_, ?_, ?_, ?_⟩
+  · intro x st hb hp
+    rw [f7] at hb; rw [f3] at hp; rw [f5]
+    by_cases hxe : x = e
+    · simp [hxe] at hb; rw [hb]
+    · simp [hxe] at hb
+      exfalso
+      have hbx := (hI.a.bkT x st hb).2
+      have hre := hI.a.runningT e cv pp hrun
+      rcases Nat.lt_or_gt_of_ne hxe with hlt | hgt
+      · -- x < e: e is running, so the first block of e (≥ T (x+1)) is persisted
+        have h1 : T (x + 1) ≤ T e := hm.le (by omega)
+        have h2 : T x < T (x + 1) := hm x
+        omega
+      · -- e < x: prompt teardown
+        have h1 : T (e + 1) ≤ T x := hm.le (by omega)
+        have h2 : T e < T (e + 1) := hm e
+        omega
+  · intro x v' p' hr hp
+    rw [f6] at hr; rw [f7]; rw [f3] at hp
+    by_cases hxe : x = e
+    · simp [hxe] at hr ⊢; exact ⟨hr.1, hr.2⟩
+    · simp [hxe] at hr ⊢; exact hI.live x v' p' hr hp
+  · intro b hb
+    rw [write_signed] at hb; rw [f7]
+    have old : ∀ b ∈ s.signed, ∃ st, (if b.epoch = e then some (⟨e, v, p⟩ : RState) else s.lastBackup b.epoch) = some st ∧
+        Covered b.view st.view st.phase := by
+      intro b hb
+      by_cases hbe : b.epoch = e
+      · simp only [hbe, if_true]
+        exact ⟨_, rfl, hw.adv _ (hold b hb hbe)⟩
+      · simp only [hbe, if_false]; exact hI.cover b hb
+    cases sg with
+    | none => exact old b hb
+    | some x =>
+      rcases List.mem_cons.mp hb with hb | hb
+      · obtain ⟨h1, h2, h3, _⟩ := hw.sig x rfl
+        subst hb
+        simp only [h1, if_true]
+        exact ⟨_, rfl, Or.inr ⟨h2, h3⟩⟩
+      · exact old b hb
+  · rw [write_signed]
+    cases sg with
+    | none => exact hI.order
+    | some x =>
+      obtain ⟨h1, h2, _, h4⟩ := hw.sig x rfl
+      refine List.pairwise_cons.mpr ⟨?_, hI.order⟩
+      intro b hb
+      obtain ⟨st, hst, _⟩ := hI.cover b hb
+      have hbx := (hI.a.bkT b.epoch st hst).2
+      have hle : b.epoch ≤ e := by
+        by_cases hc : b.epoch ≤ e
+        · exact hc
+        · exfalso
+          have h5 : T (e + 1) ≤ T b.epoch := hm.le (by omega)
+          have h6 : T e < T (e + 1) := hm e
+          omega
+      refine ⟨by rw [h1]; exact hle, ?_⟩
+      intro hbe
+      rw [h1] at hbe
+      have := h4 b.view (hold b hb hbe)
+      rw [h2]; exact this
+
+theorem proposalFresh_iff (cv : Nat) (p : Phase) (view : Nat) :
+    proposalFresh cv p view = true ↔ ¬ view < cv ∧ (view = cv → p = .prepare) := by
+  unfold proposalFresh
+  cases p <;> simp <;> omega
+
+theorem writeOk_timeout (e cv : Nat) (pp : Phase) :
+    WriteOk e cv pp cv .timeout (some { epoch := e, view := cv, kind := .timeout, tag := 0 }) := by
+  constructor
+  · intro b hb
+    rcases hb with hb | hb
+    · exact Or.inl hb
+    · exact Or.inr ⟨hb.1, by simp⟩
+  · intro x hx; cases hx
+    refine ⟨rfl, rfl, by simp, ?_⟩
+    intro b hb
+    refine ⟨?_, by simp⟩
+    rcases hb with hb | hb <;> omega
+
+theorem writeOk_vote (e cv : Nat) (pp : Phase) (view tag : Nat) (hf : proposalFresh cv pp view = true) :
+    WriteOk e cv pp view .commit (some { epoch := e, view := view, kind := .commit, tag := tag }) := by
+  rw [proposalFresh_iff] at hf
+  have key : ∀ b, Covered b cv pp → b < view := by
+    intro b hb
+    rcases hb with hb | ⟨hb1, hb2⟩
+    · omega
+    · have : view ≠ cv := fun h => hb2 (hf.2 h)
+      omega
+  constructor
+  · intro b hb; exact Or.inl (key b hb)
+  · intro x hx; cases hx
+    refine ⟨rfl, rfl, by simp, ?_⟩
+    intro b hb
+    have := key b hb
+    exact ⟨by omega, fun _ => this⟩
+
+theorem writeOk_newView (e cv : Nat) (pp : Phase) (view : Nat) (h : cv < view) :
+    WriteOk e cv pp view .prepare none := by
+  constructor
+  · intro b hb
+    rcases hb with hb | hb
+    · exact Or.inl (by omega)
+    · exact Or.inl (by omega)
+  · intro x hx; cases hx
+
+theorem InvB.step {T : Nat → Nat} (hm : Mono T) {s s' : Node} {ev : Ev} (hI : InvB T s) (hok : EvOk T s ev)
+    (hp : Prompt T s ev) (hs : step s ev = some s') : InvB T s' := by
+  have ha := hI.a.step hok hs
+  cases ev with
+  | runnerInit last act com =>
+    simp only [Model.Epoch.step] at hs
+    split at hs
+    · cases hs
+    · cases hs
+      exact hI.quiet ha ⟨rfl, rfl, rfl, Nat.le_refl _, fun e v p h => Or.inl h⟩
+  | poll pending =>
+    simp only [Model.Epoch.step] at hs
+    split at hs
+    · cases hs
+    · split at hs
+      · cases hs
+        exact hI.quiet ha ⟨rfl, rfl, rfl, Nat.le_refl _, fun e v p h => Or.inl h⟩
+      · cases hs
+  | spawn e =>
+    simp only [Model.Epoch.step] at hs
+    split at hs
+    · cases hs
+      refine hI.quiet ha ⟨rfl, rfl, rfl, Nat.le_refl _, ?_⟩
+      intro x v p h
+      simp only [setInst] at h
+      by_cases hxe : x = e
+      · simp [hxe] at h
+      · simp [hxe] at h; exact Or.inl h
+    · cases hs
+  | start e =>
+    simp only [Model.Epoch.step] at hs
+    split at hs
+    · split at hs
+      · cases hs
+        refine hI.quiet ha ⟨rfl, rfl, rfl, Nat.le_refl _, ?_⟩
+        intro x v p h
+        simp only [setInst] at h
+        by_cases hxe : x = e
+        · subst hxe; simp at h; exact Or.inr h
+        · simp [hxe] at h; exact Or.inl h
+      · cases hs
+    · cases hs
+  | timeout e =>
+    simp only [Model.Epoch.step] at hs
+    split at hs
+    · rename_i v p hrun
+      cases hs; exact hI.write hm hrun hp (writeOk_timeout e v p)
+    · cases hs
+  | vote e view number tag =>
+    simp only [Model.Epoch.step] at hs
+    split at hs
+    · rename_i cv p hrun
+      split at hs
+      · rename_i hc
+        cases hs
+        simp only [Bool.and_eq_true] at hc
+        exact hI.write hm hrun hp (writeOk_vote e cv p view tag hc.1)
+      · cases hs
+    · cases hs
+  | newView e view =>
+    simp only [Model.Epoch.step] at hs
+    split at hs
+    · rename_i cv p hrun
+      split at hs
+      · rename_i hc
+        cases hs; exact hI.write hm hrun hp (writeOk_newView e cv p view hc)
+      · cases hs
+    · cases hs
+  | queue =>
+    simp only [Model.Epoch.step] at hs
+    cases hs
+    exact hI.quiet ha ⟨rfl, rfl, rfl, Nat.le_refl _, fun e v p h => Or.inl h⟩
+  | persist =>
+    simp only [Model.Epoch.step] at hs
+    split at hs
+    · cases hs
+      exact hI.quiet ha ⟨rfl, rfl, rfl, Nat.le_succ _, fun e v p h => Or.inl h⟩
+    · cases hs
+  | syncPersist =>
+    simp only [Model.Epoch.step] at hs
+    cases hs
+    exact hI.quiet ha ⟨rfl, rfl, rfl, Nat.le_succ _, fun e v p h => Or.inl h⟩
+  | teardown e =>
+    simp only [Model.Epoch.step] at hs
+    split at hs
+    · cases hs
+    · split at hs
+      · split at hs
+        · split at hs
+          · cases hs
+            refine hI.quiet ha ⟨rfl, rfl, rfl, Nat.le_refl _, ?_⟩
+            intro x v p h
+            simp only [setInst] at h
+            by_cases hxe : x = e
+            · simp [hxe] at h
+            · simp [hxe] at h; exact Or.inl h
+          · cases hs
+        · cases hs
+      · cases hs
+  | cancel e =>
+    simp only [Model.Epoch.step] at hs
+    split at hs
+    · cases hs
+    · cases hs
+      refine hI.quiet ha ⟨rfl, rfl, rfl, Nat.le_refl _, ?_⟩
+      intro x v p h
+      simp only [setInst] at h
+      by_cases hxe : x = e
+      · simp [hxe] at h
+      · simp [hxe] at h; exact Or.inl h
+  | crash =>
+    simp only [Model.Epoch.step] at hs
+    cases hs
+    refine hI.quiet ha ⟨rfl, rfl, rfl, Nat.le_refl _, ?_⟩
+    intro x v p h
+    simp at h
+
+theorem InvB.reach {T : Nat → Nat} (hm : Mono T) {s : Node} (h : Reach T (Prompt T) s) : InvB T s := by
+  induction h with
+  | init st n h => exact InvB.init st n h
+  | step _ hok hp hs ih => exact ih.step hm hok hp hs
 
 end EraVerif.Proofs.Epoch
